@@ -10,7 +10,7 @@ import time
 
 import vlib
 
-HEADER = ("From Coq Require Import String List Bool Arith.\nImport ListNotations.\n"
+HEADER = ("From Coq Require Import String List Bool Arith NArith.\nImport ListNotations.\n"
           "From GT Require Import Base.Verdict ProtoModel ProtoJudge.\n"
           "Local Open Scope string_scope.\n")
 
@@ -35,10 +35,21 @@ def scan_stream(ctx, tools, quick):
                                                  "-n", 1500 if quick else 30000])
     if err:
         return [], 0, 0, err
-    bad, nt, err = ctx.judge_cases(HEADER, "scase", "scan_judge", t, shard=1500, nontrivial="scan_declares", tag="scan")
-    if err:
-        return [], len(t), 0, err
-    return [(j[i], c) for i, c in bad], len(t), nt, None
+    # short contents in big shards; the long ones (buffer-boundary files up to 200 KB, written as repeated pieces)
+    # apart, a few hundred per shard
+    short = [i for i in range(len(t)) if "repN" not in t[i]]
+    long_ = [i for i in range(len(t)) if "repN" in t[i]]
+    bad, nt = [], 0
+    for idx, shard, tag in ((short, 1500, "scan"), (long_, 60, "scanlong")):
+        if not idx:
+            continue
+        b, n, err = ctx.judge_cases(HEADER, "scase", "scan_judge", [t[i] for i in idx], shard=shard,
+                                    nontrivial=("scan_declares" if tag == "scan" else None), tag=tag)
+        if err:
+            return [], len(t), 0, err
+        bad += [(j[idx[k]], c) for k, c in b]
+        nt += n
+    return bad, len(t), nt, None
 
 
 def build_tools(ctx):
